@@ -185,12 +185,12 @@ prop('C17', ['L1', 'L2', 'L3', 'L4', 'L5', 'T3', 'T3b', 'G3'],
      'queue on a lock that releases the GIL instead of on the engine mutex (G3).',
      ['linearizability over schedules'])
 
-prop('C18', ['T1', 'T2', 'T3', 'T3b', 'T4', 'T5', 'T6', 'T7', 'T8', 'K7py', 'K6py'],
+prop('C18', ['T1', 'T2', 'T3', 'T3b', 'T4', 'T5', 'T6', 'T7', 'T8', 'K7py', 'T9', 'K6py'],
      'Twins: both recognisers test the same atoms (T1); the key sort twin has the same stages and '
      'last resort (T2); cached answers and address-keyed memos are evicted with the class (T3, '
      'T3b); one-level handlers (T4), '
      'path entry classes (T5), treespec predicates (T6), struct sequence field listing (T7), field listings read the class and never the instance (T8), '
-     'flatten-result validation (K7py) and '
+     'flatten-result validation (K7py), the composition of the one-level result (T9) and '
      'lookup order (K6py) agree with the engine.',
      ['agreement over all inputs and cache histories'])
 
